@@ -223,7 +223,7 @@ def model_protocol(script, max_iter, min_iter, num_extrap, r0, ratio):
     return dict(iterations=i, failed=not converged, degenerate=degenerate, radius=r)
 
 
-def run_scripted(script, max_iter, num_extrap, n=3):
+def run_scripted(script, max_iter, num_extrap, n=3, min_iter=None):
     from numdifftools import fornberg as ndf
     calls = dict(i=0)
     state = dict(last=None)
@@ -257,8 +257,9 @@ def run_scripted(script, max_iter, num_extrap, n=3):
         ndf._poor_convergence = lambda z, r, ff, bn, mvec: script[min(calls['i'], len(script) - 1)] == 'P'
         with warnings.catch_warnings():
             warnings.simplefilter('ignore')
+            kw = {} if min_iter is None else dict(min_iter=min_iter)     # (given explicitly or left to its default)
             coefs, info = ndf.Taylor(f, n=n, r=0.0059, num_extrap=num_extrap, step_ratio=1.6, max_iter=max_iter,
-                                     full_output=True)(0.1)
+                                     full_output=True, **kw)(0.1)
     finally:
         ndf._check_fft, ndf._poor_convergence = old
     return coefs, info, evals['n']
@@ -276,16 +277,20 @@ def scripts(max_iter, maxdev):
 
 def work_protocol(chunk):
     acc = fw.Acc()
-    for script, max_iter, nex in chunk:
-        case = ('protocol', script, max_iter, nex)
+    for job in chunk:
+        script, max_iter, nex = job[:3]
+        min_iter = job[3] if len(job) > 3 else None
+        case = ('protocol', script, max_iter, nex) + (() if min_iter is None else (min_iter,))
         jc = dict(kind='protocol', script=script, max_iter=max_iter, num_extrap=nex)
+        if min_iter is not None:
+            jc['min_iter'] = min_iter
         try:
-            coefs, info, evals = run_scripted(script, max_iter, nex)
+            coefs, info, evals = run_scripted(script, max_iter, nex, min_iter=min_iter)
         except Exception as e:
             acc.case(case, nontrivial=True, cell='protocol/max_iter=%d' % max_iter, outcome='raised')
             acc.violation('C17:protocol:raised-%s' % type(e).__name__, jc, '%s: %s' % (type(e).__name__, e), rank=len(script))
             continue
-        want = model_protocol(script, max_iter, max_iter // 2, nex, 0.0059, 1.6)
+        want = model_protocol(script, max_iter, max_iter // 2 if min_iter is None else min_iter, nex, 0.0059, 1.6)
         got = dict(iterations=int(info.iterations), failed=bool(info.failed), degenerate=bool(info.degenerate),
                    radius=float(info.final_radius))
         prob = None
@@ -338,6 +343,8 @@ def run(ctx):
             maxdev = 3 if max_iter == 6 else (2 if q else 3)
             for s in scripts(max_iter, maxdev):
                 pjobs.append((s, max_iter, nex))
+    # the same scripts with min_iter given explicitly: as its documented default max_iter // 2, and as 2
+    pjobs += [j + (j[1] // 2,) for j in pjobs[::7]] + [j + (2,) for j in pjobs[3::11]]
     pacc = ctx.pmap(work_protocol, pjobs, chunk=200)
     acc.merge(pacc)
     for c in cases[:2] + cases[len(cases) // 2:len(cases) // 2 + 2]:
@@ -360,7 +367,7 @@ def run(ctx):
 
 def replay(case):
     if case.get('kind') == 'protocol':
-        a = work_protocol([(case['script'], case['max_iter'], case['num_extrap'])])
+        a = work_protocol([(case['script'], case['max_iter'], case['num_extrap']) + ((case['min_iter'],) if 'min_iter' in case else ())])
     else:
         z0 = case['z0']
         if isinstance(z0, dict):
